@@ -419,7 +419,10 @@ def run_property(prop, modname, tier, level, title='', record_baseline=False):  
                 if pr.returncode == 1:
                     confirmed = True
                 elif pr.returncode == 0:
-                    confirmed = False
+                    # a replay that only *searches* for a failing input (the
+                    # obligation was refuted against an adversarial callee
+                    # model) proves nothing by not finding one
+                    confirmed = None if replay_info.get('search') else False
             except subprocess.TimeoutExpired:
                 replay_info['exit'] = 'timeout'
                 confirmed = True if replay_info.get(
